@@ -240,6 +240,10 @@ class CallMixin:
         if name == "is_none":
             v = self.ev(node.args[0], st)
             return VBool(isinstance(v, VNone))
+        if name == "zerod":  # ghost: is this array value 0-dimensional (np.squeeze of one element)?
+            v = self.ev(node.args[0], st)
+            f = st.hmeta[v.obj].get("zerod_if") if isinstance(v, VArr) else None
+            return VBool(f if f is not None else z3.BoolVal(False))
         if name == "is_real":
             v = self.ev(node.args[0], st)
             return VBool(isinstance(v, (VReal, VInt)))
@@ -722,6 +726,9 @@ class CallMixin:
                 if cur.heap[res.obj].sort() != cur.heap[cenv[c.ret_like].obj].sort():
                     cur.heap[res.obj] = smt.fresh(res.obj + "@like", cur.heap[cenv[c.ret_like].obj].sort())
             self.result = res
+            for mk_, mexpr in getattr(c, "ret_meta", {}).items():
+                if isinstance(res, VArr):
+                    cur.hmeta[res.obj] = dict(cur.hmeta[res.obj], **{mk_: self.spec_bool(mexpr, cur)})
             for (label, expr, cls) in c.ensures:
                 cur.assume(self.spec_bool(expr, cur))
             cur.env = saved_env
